@@ -141,7 +141,7 @@ func (in *Interp) pick() *Thread {
 		}
 		if len(en) == 0 {
 			// quiescence: fire the earliest timer if any
-			if in.fireNextTimer() {
+			if !in.holdTimers && in.fireNextTimer() {
 				continue
 			}
 			if in.quiesce != nil {
